@@ -50,6 +50,9 @@ M = [
  ("C11_validate_params_stops_at_first_error", "C11", "internal/pkg/input/validators_params.go", "\t\t\terrs = append(errs, newErrUnsupportedType(fmt.Sprintf(\"%+q\", n), v))\n", "\t\t\terrs = append(errs, newErrUnsupportedType(fmt.Sprintf(\"%+q\", n), v))\n\t\t\tbreak\n", "no-early-exit"),
  ("C18_main_version_and_buildinfo_swapped", "C18", "main.go", "\t\t\tbv.GitVersion,\n\t\t\tbuildInfo(bv),\n", "\t\t\tbuildInfo(bv),\n\t\t\tbv.GitVersion,\n", "main"),
  ("C10_exit_status_ignores_error", "C10", "main.go", "\tif err := rootCmd.Execute(); err != nil {\n\t\tos.Exit(1)\n\t}\n", "\t_ = rootCmd.Execute()\n", "main"),
+ ("C16_switchable_inactive_by_default", "C16", "internal/cmd/runner/step_verbose_switchable.go", "\t\tactive:   true,\n", "\t\tactive:   false,\n", "NewStepVerboseSwitchable"),
+ ("C10_code_generator_built_without_builder", "C10", "internal/cmd/runner/step_code_generator.go", "\t\tbuilder:    builder,\n", "", "NewStepCodeGenerator"),
+ ("C02_compile_services_built_without_resolver", "C02", "internal/pkg/compiler/step_compile_services.go", "return &StepCompileServices{aliaser: a, argResolver: ar}", "return &StepCompileServices{aliaser: a}", "NewStepCompileServices"),
  ("C08_output_path_made_absolute", "C08", "internal/cmd/runner/step_code_generator.go", None, None, ""),
 ]
 out = "/verif/selftest/mutants"
